@@ -10,8 +10,10 @@ A total, executable mirror of the code between "bytes arrived" and "session stat
 * `StreamUnderlay.readOneSegment` / `readSessionSegment` / `readDataAckSegment`        → `tcpRead`
 * `StreamUnderlay.RunEventLoop` + `validateNewServerSessionSegment` + the `on…` handlers → `tcpStep`
 * `validateServerSegmentDirection`, `validateNewServerSessionSegment`                   → same names
-* `Session.input` (direction check, the cipher-user / user-policy consistency checks that
-  `panic`, the dispatch to `inputData` / `inputAck` / `inputClose`)                      → `sessionInput`
+* `Session.input` (direction check — an error on the stream transport, a silent discard on the
+  packet transport —, the cipher-user / user-policy consistency checks that `panic`, the dispatch
+  to `inputData` / `inputAck` / `inputClose`; `inputData` on the stream transport requires the
+  session's next sequence number, `Sess.streamNext`)                                      → `sessionInput`
 * `segmentTree.Insert`'s `checkSeq` / `checkProtocolType`                                → `treeInsertOk`
 
 `Outcome.panic` is an outcome OF THE MODEL wherever the code panics; the theorems of Props/C10 say
@@ -152,6 +154,7 @@ structure Sess where
   policy : Option String := none   -- name of `s.userPolicy`
   pending : Option (List String) := none  -- names in `pendingServerUserPolicies` (nil for sessions made by an underlay)
   closed : Bool := false
+  streamNext : Nat := 0            -- TCP: `streamNextRecv`, the sequence number `inputData` requires next
   deriving Repr, DecidableEq
 
 /-- a segment as handed to the event loop -/
@@ -201,21 +204,32 @@ def identCheck (r : Role) (s : Sess) (g : Seg) : Option Sess :=
           else some { s2 with policy := some pol }
         else some s2
 
-/-- the dispatch at the end of `Session.input`: `inputData` (whose tree inserts are guarded by
-    `checkSeq` / `checkProtocolType`), `inputAck`, `inputClose` -/
-def inputTail (p : Nat) (s' : Sess) : Outcome × Sess :=
+/-- the dispatch at the end of `Session.input`: `inputData`, `inputAck`, `inputClose`.
+    `inputData` on the STREAM transport first requires the next sequence number (`streamNextRecv`): the
+    transport delivers a session's segments exactly once and in order, so anything else fails the
+    session; then come the tree inserts guarded by `checkSeq` / `checkProtocolType`. On the packet
+    transport any sequence number is absorbed (buffered, delivered or ignored as a duplicate). -/
+def inputTail (stream : Bool) (p seq : Nat) (s' : Sess) : Outcome × Sess :=
   if p == 2 || p == 3 || isDataProtocol p then
-    if treeInsertOk p then (.deliver, s') else (.panic, s')
+    if stream && seq != s'.streamNext then (.closeSession, { s' with closed := true })
+    else if treeInsertOk p then
+      (.deliver, if stream then { s' with streamNext := s'.streamNext + 1 } else s')
+    else (.panic, s')
   else if isAckProtocol p then (.deliver, s')
   else if p == 4 || p == 5 then (.closeSession, { s' with closed := true })
   else (.deliver, s')
 
-/-- `Session.input`: outcome and the session afterwards -/
-def sessionInput (r : Role) (s : Sess) (g : Seg) : Outcome × Sess :=
-  if !directionOk r g.md.proto then (.closeSession, { s with closed := true }) else
+/-- `Session.input`: outcome and the session afterwards. A segment travelling in the wrong direction
+    is an error that closes the session on the stream transport; on the packet transport (where
+    anybody on the path can reflect a datagram to its sender) it is discarded, before any of the
+    identity checks. -/
+def sessionInput (stream : Bool) (r : Role) (s : Sess) (g : Seg) : Outcome × Sess :=
+  if !directionOk r g.md.proto then
+    if stream then (.closeSession, { s with closed := true }) else (.drop, s)
+  else
   match identCheck r s g with
   | none => (.panic, s)
-  | some s' => inputTail g.md.proto s'
+  | some s' => inputTail stream g.md.proto g.md.seq s'
 
 def findSess (t : List Sess) (sid : Nat) : Option Sess := t.find? (fun s => s.id == sid)
 
@@ -230,15 +244,15 @@ structure Step where
   deriving Repr, DecidableEq
 
 /-- `deliverSegmentToSession` + `Session.input` for a session found in the map -/
-def deliverTo (r : Role) (t : List Sess) (s : Sess) (g : Seg) : Step :=
+def deliverTo (stream : Bool) (r : Role) (t : List Sess) (s : Sess) (g : Seg) : Step :=
   if s.closed then { outcome := .drop, table := t } else
-  let (o, s') := sessionInput r s g
+  let (o, s') := sessionInput stream r s g
   { outcome := o, table := replaceSess t s' }
 
 /-- `onOpenSessionRequest` after the id checks: the new session `s0` is registered, the open request
     is delivered to it, the session is handed to `Accept()` -/
-def createSess (r : Role) (t : List Sess) (s0 : Sess) (g : Seg) (quotaOk : Bool) : Step :=
-  let x := sessionInput r s0 g
+def createSess (stream : Bool) (r : Role) (t : List Sess) (s0 : Sess) (g : Seg) (quotaOk : Bool) : Step :=
+  let x := sessionInput stream r s0 g
   if x.1 == .panic then { outcome := .panic, table := t }
   else { outcome := .createSession, table := t ++ [{ x.2 with closed := x.2.closed || !quotaOk }] }
 
@@ -300,7 +314,7 @@ def ownerMatches (r : Role) (s : Sess) (g : Seg) : Bool :=
 
 /-- delivery to a session found in the map, behind the owner check of the repair -/
 def deliverChecked (fixed : Bool) (r : Role) (t : List Sess) (s : Sess) (g : Seg) : Step :=
-  if fixed && !ownerMatches r s g then { outcome := .drop, table := t } else deliverTo r t s g
+  if fixed && !ownerMatches r s g then { outcome := .drop, table := t } else deliverTo false r t s g
 
 /-- `PacketUnderlay.RunEventLoop` for one parsed segment -/
 def udpDispatch (fixed : Bool) (r : Role) (t : List Sess) (g : Seg) (e : Env) : Step :=
@@ -313,7 +327,7 @@ def udpDispatch (fixed : Bool) (r : Role) (t : List Sess) (g : Seg) (e : Env) : 
       else match findSess t sid with
         | some _ => { outcome := .drop, table := t }
         | none =>
-          createSess r t { id := sid, addr := e.src, policy := if g.policy == "" then none else some g.policy } g e.quotaOk
+          createSess false r t { id := sid, addr := e.src, policy := if g.policy == "" then none else some g.policy } g e.quotaOk
     else if p == 3 then
       if r == .server then { outcome := .drop, table := t }
       else match findSess t sid with
@@ -418,7 +432,7 @@ def tcpStep (r : Role) (st : TcpSt) (m : Md) (e : Env) : TcpStep :=
           | some _ => { outcome := .drop, st := st1 }
           | none =>
             let pol := if g.authNew then g.policy else st1.srvPolicy
-            let c := createSess r t { id := m.sid, policy := if pol == "" then none else some pol } g e.quotaOk
+            let c := createSess true r t { id := m.sid, policy := if pol == "" then none else some pol } g e.quotaOk
             { outcome := c.outcome,
               st := { st1 with table := c.table,
                                srvPolicy := if c.outcome == .createSession && g.authNew then g.policy else st1.srvPolicy } }
@@ -426,15 +440,15 @@ def tcpStep (r : Role) (st : TcpSt) (m : Md) (e : Env) : TcpStep :=
         if r == .server then { outcome := .closeUnderlay, st := st1 }
         else match findSess t m.sid with
           | none => { outcome := .closeUnderlay, st := st1 }
-          | some s => liftStep st1 (deliverTo r t s g)
+          | some s => liftStep st1 (deliverTo true r t s g)
       else
         match findSess t m.sid with
         | none => { outcome := .drop, st := st1 }
-        | some s => liftStep st1 (deliverTo r t s g)
+        | some s => liftStep st1 (deliverTo true r t s g)
     else if isDataAckProtocol p then
       match findSess t m.sid with
       | none => { outcome := .drop, reply := true, st := st1 }
-      | some s => liftStep st1 (deliverTo r t s g)
+      | some s => liftStep st1 (deliverTo true r t s g)
     else { outcome := .drop, st := st1 }
 
 /-! ## Histories -/
